@@ -80,6 +80,7 @@ type TB struct {
 	next  int
 	ufs   map[string]*ufDecl
 	fresh map[string]int
+	groundByRoot map[int][]*Term
 }
 
 type ufDecl struct {
